@@ -835,11 +835,16 @@ class Interp:
 
     def _panics(self, body, bb, depth=0):
         """Does block bb unconditionally end in a panic (call without target / unreachable)?"""
-        if depth > 4:
+        if depth > 8:
             return False
         t = body.blocks[bb]["t"]
         if t["k"] == "call":
-            return "target" not in t
+            if "target" not in t:
+                return True
+            # an assertion with a message formats its arguments (calls that do return) before it panics
+            if (t.get("sp") or {}).get("m"):
+                return self._panics(body, t["target"], depth + 1)
+            return False
         if t["k"] in ("unreachable",):
             return True
         if t["k"] == "goto":
